@@ -59,7 +59,7 @@ TYPE3 = [None, {"base": [["hit", "hit", "hold"]], "opts": ["ANY_ORDER"], "exclud
          {"base": [["hold", "tail", "hit"]], "opts": ["ANY_ORDER"], "exclude": True}]
 
 
-def _mk_filters(size, ch, co, ty):
+def _mk_filters(size, ch, co, ty, KEYS=4):
     from reamber.algorithms.pattern.filters.PtnFilter import PtnFilterChord, PtnFilterCombo, PtnFilterType
     T = _types()
     fch = fco = fty = None
@@ -81,7 +81,7 @@ def _mk_filters(size, ch, co, ty):
     return fch, fco, fty
 
 
-def _fdesc(f):
+def _fdesc(f, KEYS=4):
     if not f:
         return {"on": False}
     return {"on": True, "base": f["base"], "keys": KEYS, "opts": f["opts"], "exclude": f["exclude"]}
@@ -94,6 +94,7 @@ def exec_ptn(scn):
     T = _types()
     out = []
     notes = scn["notes"]
+    KEYS = scn.get("keys", 4)
     h = None if scn["h"] < 0 else scn["h"]
     rec = {"id": scn["id"] + "/group", "op": "group", "cls": f"group.{'via_lists' if scn.get('via_lists') else 'direct'}",
            "exc": "", "v": int(scn["v"] * 1000), "h": scn["h"], "jack": scn["jack"], "notes": [], "groups": []}
@@ -104,7 +105,9 @@ def exec_ptn(scn):
         else:
             order = list(range(len(notes)))
             r.shuffle(order)     # construction order is irrelevant: Pattern sorts by time
-            p = Pattern(cols=[notes[i]["c"] for i in order], offsets=[notes[i]["t"] * U for i in order],
+            # some charts sit a fraction of a millisecond off the whole milliseconds, some before time 0 as well
+            shift = {1: 0.390625, 2: -1000.390625}.get(scn.get("shift", 0), 0.0)
+            p = Pattern(cols=[notes[i]["c"] for i in order], offsets=[notes[i]["t"] * U + shift for i in order],
                         types=[T[notes[i]["k"]] for i in order])
         rec["notes"] = _rows(p.df.to_records(index=False))
         if scn.get("regroup"):
@@ -121,9 +124,9 @@ def exec_ptn(scn):
         return out
     for n, (size, ch, co, ty) in enumerate(scn["filters"]):
         crec = {"id": f"{scn['id']}/combos{n}", "op": "combos", "cls": f"combos.size{size}", "exc": "", "n": size,
-                "groups": rec["groups"], "chord": _fdesc(ch), "combo": _fdesc(co), "type": _fdesc(ty), "out": []}
+                "groups": rec["groups"], "chord": _fdesc(ch, KEYS), "combo": _fdesc(co, KEYS), "type": _fdesc(ty, KEYS), "out": []}
         try:
-            fch, fco, fty = _mk_filters(size, ch, co, ty)
+            fch, fco, fty = _mk_filters(size, ch, co, ty, KEYS)
             res = PtnCombo(groups).combinations(size=size, chord_filter=fch, combo_filter=fco, type_filter=fty)
             flat = []
             for ar in res:
@@ -153,8 +156,8 @@ def exec_ptn(scn):
             exc = exc_name(e)
         for how, ch in (("as_code", code_ch), ("as_documented", doc_ch)):
             out.append({"id": f"{scn['id']}/tpl{tn}.{how}", "op": "combos", "cls": f"ext.template.chord_stream.{how}", "ext": True, "exc": exc,
-                        "n": 2, "groups": rec["groups"], "chord": _fdesc(ch), "combo": _fdesc(None if jack else no_jack),
-                        "type": _fdesc(no_tail), "out": res_rows})
+                        "n": 2, "groups": rec["groups"], "chord": _fdesc(ch, KEYS), "combo": _fdesc(None if jack else no_jack, KEYS),
+                        "type": _fdesc(no_tail, KEYS), "out": res_rows})
         tn += 1
     if scn.get("templates"):
         res_rows, exc = [], ""
@@ -165,8 +168,8 @@ def exec_ptn(scn):
         except Exception as e:
             exc = exc_name(e)
         out.append({"id": f"{scn['id']}/jacks2", "op": "combos", "cls": "ext.template.jacks", "ext": True, "exc": exc, "n": 2,
-                    "groups": rec["groups"], "chord": _fdesc(None), "combo": _fdesc({"base": [[0, 0]], "opts": ["REPEAT"], "exclude": False}),
-                    "type": _fdesc(no_tail), "out": res_rows})
+                    "groups": rec["groups"], "chord": _fdesc(None, KEYS), "combo": _fdesc({"base": [[0, 0]], "opts": ["REPEAT"], "exclude": False}, KEYS),
+                    "type": _fdesc(no_tail, KEYS), "out": res_rows})
     return out
 
 
@@ -201,7 +204,13 @@ def random_scenarios(n, tier):
     for i in range(n):
         notes = sorted(({"t": r.choice([0, 0.5, 1, 1.5, 2, 3, 4, 6]), "c": r.randint(0, 3), "k": r.choice(["hit", "hit", "hold", "tail"])}
                         for _ in range(r.randint(1, 9))), key=lambda x: x["t"])
-        out.append({"id": f"r{i}", "notes": notes, "v": r.choice([0, 0.5, 1, 2]), "h": r.choice([-1, 0, 1, 2]),
-                    "jack": r.random() < 0.5, "filters": pick_filters(r, tier), "via_lists": i % 4 == 0, "regroup": i % 3 == 1,
+        sc7 = {}
+        if i % 5 >= 3:
+            # seven keys, groups that repeat a column (jacks allowed), size-3 combinations through many-row REPEAT filters
+            notes = sorted(({"t": r.choice([0, 0.5, 1, 2, 3, 4]), "c": r.choice([0, 1, 1, 2, 5, 6]), "k": r.choice(["hit", "hit", "hold"])}
+                            for _ in range(r.randint(5, 9))), key=lambda x: x["t"])
+            sc7 = {"keys": 7}
+        out.append({"id": f"r{i}", "notes": notes, "v": r.choice([0, 0.5, 1, 2]), "h": r.choice([-1, 0, 1, 2]) if not sc7 else -1,
+                    "jack": r.random() < 0.5 and not sc7, **sc7, "filters": pick_filters(r, tier), "via_lists": i % 4 == 0, "regroup": i % 3 == 1, "shift": (i // 2) % 3,
                     "templates": [(2, 1, False, False), (2, 1, True, False), (3, 2, True, True), (1, 1, False, True)] if i % 2 == 0 else []})
     return out
